@@ -1,11 +1,12 @@
-"""Translator: yy_flush_buffer(), yy_load_buffer_state() and yy_init_buffer() of a scanner flex has just generated
+"""Translator: yy_flush_buffer(), yy_load_buffer_state(), yy_init_buffer() and yy_create_buffer() of a scanner flex has just generated
 ->  lean/FlexVerif/Gen/Flush.lean.
 
 The array is the character buffer `b->yy_ch_buf` of the buffer `b` the functions are called on; its fields and the
 scanner's globals are variables.  `b == yy_current_buffer()` is the variable `b_is_current` (both spellings of the
 test); inside yy_load_buffer_state(), which is only reached under that test, the current buffer *is* b
 (`YY_CURRENT_BUFFER_LVALUE->` is read as `b->`).  Calls of one of the three functions from another are inlined
-(`scope`).  `isatty(fileno(file)) > 0` is the variable `file_is_tty`.
+(`scope`).  `isatty(fileno(file)) > 0` is the variable `file_is_tty`.  In yy_create_buffer() the structure's allocation succeeding is
+`b = 1`; `b->yy_ch_buf = yyalloc(n)` makes the array n cells of garbage (`growTo`).
 """
 import os, re, subprocess
 from .gen_options import tokenize, TranslateError
@@ -15,9 +16,11 @@ from . import gen_yyless as Y
 BASE = 'b->yy_ch_buf'
 VARS = ['b', 'b_is_current', 'b->yy_n_chars', 'b->yy_buf_pos', 'b->yyatbol', 'b->yy_buffer_status', 'b->yy_input_file',
         'b->yy_fill_buffer', 'b->yy_bs_lineno', 'b->yy_bs_column', 'b->yy_is_interactive', 'yy_n_chars', 'yytext_ptr',
-        'yy_c_buf_p', 'yyin', 'yy_hold_char', 'file', 'file_is_tty', 'errno', 'oerrno']
+        'yy_c_buf_p', 'yyin', 'yy_hold_char', 'file', 'file_is_tty', 'errno', 'oerrno', 'size', 'b->yy_buf_size',
+        'b->yy_is_our_buffer', 'b->yy_ch_buf', 'current_slot']
 LEAN_NAMES = ['vB', 'vIsCur', 'fNChars', 'fBufPos', 'fAtBol', 'fStatus', 'fFile', 'fFill', 'fLineno', 'fColumn', 'fInteractive',
-              'vNChars', 'vTextPtr', 'vCBufP', 'vYyin', 'vHold', 'vFile', 'vTty', 'vErrno', 'vOErrno']
+              'vNChars', 'vTextPtr', 'vCBufP', 'vYyin', 'vHold', 'vFile', 'vTty', 'vErrno', 'vOErrno', 'vSize', 'fBufSize',
+              'fOurs', 'fChBuf', 'vCurrentSlot']
 
 
 class P(Y.P):
@@ -45,7 +48,7 @@ class Tr(Y.Tr):
             raise TranslateError('variable %s is not part of yy_flush_buffer / yy_init_buffer' % name)
         return VARS.index(name)
 
-    def ex(self, e):
+    def ex0(self, e):
         k = e[0]
         if k == 'addr':
             x = e[1]
@@ -57,14 +60,37 @@ class Tr(Y.Tr):
             return p, '(.idx %s)' % i, q
         return super().ex(e)
 
+    def ex(self, e):
+        k = e[0]
+        if k == 'bin' and e[1] in ('==', '!=') and ('id', BASE) in (e[2], e[3]):
+            other = e[3] if e[2] == ('id', BASE) else e[2]
+            if other not in (('id', 'NULL'), ('num', 0)):
+                raise TranslateError('the character buffer pointer compared with something else than NULL')
+            t = '(.eq (.var %d) (.lit 0))' % VARS.index(BASE)
+            return [], (t if e[1] == '==' else '(.not %s)' % t), []
+        return self.ex0(e)
+
     def assign(self, e):
         lv, op, rhs = e[1], e[2], e[3]
+        if lv == ('id', BASE) and op == '=' and rhs[0] == 'call' and rhs[1] == 'yyalloc':
+            p, n, q = self.ex(rhs[2][0])
+            if p or q:
+                raise TranslateError('side effect in an allocation size')
+            return ['(.growTo %s)' % n, '(.assign %d (.lit 1))' % VARS.index(BASE)]
         if lv[0] == 'index' and lv[1] == ('id', BASE) and op == '=':
             p1, i, q1 = self.ex(lv[2]); p2, r, q2 = self.ex(rhs)
             return p1 + p2 + ['(.store %s %s)' % (i, r)] + q1 + q2
         return super().assign(e)
 
     def st(self, s):
+        if s[0] == 'expr' and s[1][0] == 'call' and s[1][1] == 'yyfree':
+            # a logged call: 1 = the character memory of b, 0 = the structure b itself
+            a = s[1][2]
+            if len(a) == 1 and a[0] == ('id', BASE):
+                return '(.call 1 (.lit 1))'
+            if len(a) == 1 and a[0] == ('id', 'b'):
+                return '(.call 1 (.lit 0))'
+            raise TranslateError('yyfree() of something else than b or its character memory')
         if s[0] == 'expr' and s[1][0] == 'call' and s[1][1] in self.inl:
             return '(.scope %s)' % self.inl[s[1][1]]
         return super().st(s)
@@ -91,6 +117,10 @@ def body_of(text, name):
     b = re.sub(r'\bb\s*==\s*yy_current_buffer\s*\(\s*\)', 'b_is_current', b)
     b = re.sub(r'\bb\s*!=\s*yy_current_buffer\s*\(\s*\)', '(! b_is_current)', b)
     b = re.sub(r'\bYY_CURRENT_BUFFER_LVALUE\s*->', 'b->', b)
+    b = re.sub(r'\bYY_CURRENT_BUFFER_LVALUE\b', 'current_slot', b)
+    b = re.sub(r'\byy_buffer_stack\s*\[\s*yy_buffer_stack_top\s*\]', 'current_slot', b)
+    b = re.sub(r'\(\s*void\s*\*\s*\)', ' ', b)
+    b = re.sub(r'\(\s*yybuffer\s*\)\s*0\b', '0', b)
     b = re.sub(r'\(\s*isatty\s*\(\s*fileno\s*\(\s*file\s*\)\s*\)\s*>\s*0\s*\)', 'file_is_tty', b)
     return b
 
@@ -109,6 +139,32 @@ def translate(text):
     flush = Tr({}, consts, msgs, inl).st(P(tokenize(body_of(text, 'yy_flush_buffer'))).stmt())
     inl['yy_flush_buffer'] = flush
     init = Tr({}, consts, msgs, inl).st(P(tokenize(body_of(text, 'yy_init_buffer'))).stmt())
+    inl['yy_init_buffer'] = init
+    translate.delete = Tr({}, consts, msgs, inl).st(P(tokenize(body_of(text, 'yy_delete_buffer'))).stmt())
+    create = None
+    m = re.search(r'\n\s*yybuffer\s+yy_create_buffer\s*\([^)]*\)\s*\{', text)
+    if not m:
+        raise TranslateError('function yy_create_buffer not found in the generated scanner')
+    if m:
+        i = m.end() - 1
+        depth, j = 0, i
+        while True:
+            if text[j] == '{':
+                depth += 1
+            elif text[j] == '}':
+                depth -= 1
+                if depth == 0:
+                    break
+            j += 1
+        cb = re.sub(r'/\*.*?\*/', ' ', text[i:j + 1], flags=re.S)
+        cb, n = re.subn(r'\(\s*yybuffer\s*\)\s*yyalloc\s*\(\s*sizeof\s*\(\s*struct\s+yy_buffer_state\s*\)\s*(?:,\s*yyscanner\s*)?\)', ' FV_NEW_BUFFER ', cb)
+        if n != 1:
+            raise TranslateError('the allocation of the buffer structure was not found in yy_create_buffer')
+        if n == 1:
+            consts2 = dict(consts, FV_NEW_BUFFER=1)
+            create = Tr({}, consts2, msgs, inl).st(P(tokenize(cb)).stmt())
+    translate.create = create
+    translate.msgs = msgs
     return load, flush, init, consts
 
 
@@ -122,8 +178,13 @@ def emit(ns, load, flush, init, consts, origin):
     L += ['def cYY_BUFFER_NEW : Int := %d' % consts['YY_BUFFER_NEW'],
           '/-- yy_load_buffer_state(), the current buffer being b -/', 'def load : St :=\n  ' + load,
           '/-- yy_flush_buffer(b) -/', 'def flush : St :=\n  ' + flush,
-          '/-- yy_init_buffer(b, file) -/', 'def init : St :=\n  ' + init,
-          'end FlexVerif.Gen.' + ns]
+          '/-- yy_init_buffer(b, file) -/', 'def init : St :=\n  ' + init]
+    if getattr(translate, 'create', None):
+        L += ['/-- yy_create_buffer(file, size); the array is the memory it allocates for the characters -/',
+              'def create : St :=\n  ' + translate.create]
+    L += ['/-- yy_delete_buffer(b); yyfree() is a logged call: (1, 1) the character memory of b, (1, 0) the structure -/',
+          'def delete : St :=\n  ' + translate.delete]
+    L += ['end FlexVerif.Gen.' + ns]
     return '\n'.join(L) + '\n'
 
 
